@@ -10,6 +10,11 @@ THEOREMS = [_T + n for n in [
     "only_input_error", "urlencoded_roundtrip", "urlencoded_roundtrip_entry", "limits_enforced_parts", "limits_enforced_parts_reject",
     "limits_enforced_header", "multipart_roundtrip", "multipart_roundtrip_refuted", "multipart_disposition_recovered",
     "multipart_trailing_backslash_fixed", "multipart_trailing_backslash_recovered", "limits_exact",
+    "multipart_disposition2231_recovered", "multipart_roundtrip_2231", "limits_exact_2231",
+    "urlencoded_utf8_names_mojibake", "urlencoded_utf8_roundtrip_partial", "urlencoded_utf8_roundtrip_refuted",
+    "urlencoded_names_latin1", "urlencoded_wide_name_unrecoverable",
+    "multipart_roundtrip_prefilled", "multipart_roundtrip_2231_prefilled", "multipart_roundtrip_entry", "multipart_roundtrip_2231_entry",
+    "multipart_inner_exceptions", "multipart_inner_unicode_error", "part_headers_never_keyerror", "parse_body_outcomes",
 ]]
 TRUSTED = [
     "bytes.find/rfind/split, str.split/strip/partition/startswith, UTF-8 decoding, urllib.parse.parse_qs(l)/unquote (latin-1), "
@@ -20,30 +25,45 @@ TRUSTED = [
     "the Python encoder's output is compared with it on every generated form",
 ]
 ASSUMPTIONS = [
-    "the `arguments` and `files` dictionaries passed in are empty",
+    "the `arguments` and `files` dictionaries passed to parse_body_arguments are empty (pre-filled dictionaries are exercised at the "
+    "parse_multipart_form_data entry: multipart_roundtrip_prefilled, label inner-prefilled)",
     "RFC 2231 parameters: the single form name*=utf-8''pct (and us-ascii/latin-1) is modelled; continuations and other codecs "
     "answer `Unmodelled` and are excluded from the diff (inside parse_body_arguments every exception becomes HTTPInputError anyway)",
     "quoted-string form: names/filenames contain none of the characters HTTPHeaders refuses in a field value "
     "([\\x00-\\x08\\x0a-\\x1f\\x7f]); names are non-empty; upload filenames are non-empty",
     "Content-Disposition parameter names contain no non-ASCII cased letters (see C43)",
 ]
-RULE = ("forms of 0-6 fields/files (binary contents, empty values, repeated names, quoted/escaped/non-ASCII names) encoded as multipart "
-        "(quoted-string or RFC 2231 parameters) or urlencoded; every single-byte mutation of small bodies; arbitrary bodies and content "
-        "types; limits at count-1/count/count+1; non-trivial = a form with >=1 part parsed successfully, or a mutated body")
+RULE = ("forms of 0-6 fields/files (binary contents, empty values, repeated names, quoted/escaped/non-ASCII names; control-character names "
+        "and filenames in the RFC 2231 form) encoded as multipart (quoted-string or RFC 2231 parameters) or urlencoded (names as latin-1 bytes, or any text as UTF-8); every single-byte mutation of small bodies; arbitrary bodies and content "
+        "types; limits at count-1/count/count+1; every non-urlencoded case is also run through parse_multipart_form_data directly (result and "
+        "exception type compared with the model's parseMultipart); non-trivial = a form with >=1 part parsed successfully, or a mutated body")
 EXHAUSTIVE = {"quick": False, "thorough": False}
 CLAUSE_CAVEATS = [
-    "the RFC 2231 (name*=charset''…) form of the lossless clause is tie-only; multipart_roundtrip is for the quoted-string form",
-    "only_input_error holds by construction of the model's catch-all; the clause is carried by the tie's 'no other exception type' oracle",
+    "only_input_error itself restates the `except Exception` of parse_body_arguments (modelled as `collapse`); its content is "
+    "multipart_inner_exceptions (outside the catch-all only UnicodeDecodeError can occur), tied at the parse_multipart_form_data entry. "
+    "Still open: where the model answers Unmodelled (an RFC 2231 charset other than utf-8/us-ascii/latin-1 in a part: parse_body_outcomes) "
+    "the clause rests on the oracle ('no Uncaught:' on the real result) alone",
 ]
 CLAUSES = {
     "multipart with a boundary occurring nowhere in the content is recovered exactly": "multipart_roundtrip (side condition: boundary without LF — "
         "multipart_roundtrip_refuted shows the clause is false as written for a boundary containing CR LF, which no Content-Type header can carry); "
         "the former side condition 'no upload whose field name ends in a backslash' is gone with the fix 112a637: multipart_disposition_recovered, "
-        "multipart_trailing_backslash_fixed / multipart_trailing_backslash_recovered evaluate the old witness",
-    "urlencoded forms are recovered exactly": "urlencoded_roundtrip, urlencoded_roundtrip_entry",
-    "any other body succeeds or raises HTTPInputError, never another exception": "only_input_error",
+        "multipart_trailing_backslash_fixed / multipart_trailing_backslash_recovered evaluate the old witness; "
+        "RFC 2231 parameters (name*=utf-8''pct): multipart_roundtrip_2231 (names/filenames ANY non-empty scalar-valued text, control "
+        "characters included; same side condition), multipart_disposition2231_recovered (_parse_header level); at the parse_body_arguments "
+        "entry, boundary carried by the Content-Type header: multipart_roundtrip_entry, multipart_roundtrip_2231_entry; pre-filled dicts: "
+        "multipart_roundtrip_prefilled, multipart_roundtrip_2231_prefilled",
+    "urlencoded forms are recovered exactly": "urlencoded_roundtrip, urlencoded_roundtrip_entry (names sent as latin-1 bytes); names sent the standard "
+        "way, as UTF-8: urlencoded_utf8_roundtrip_partial (ASCII names) — the full clause is FALSE for non-ASCII names, "
+        "urlencoded_utf8_roundtrip_refuted / urlencoded_utf8_names_mojibake; urlencoded_names_latin1 / urlencoded_wide_name_unrecoverable: no body at "
+        "all yields a name with a character above U+00FF (known finding urlencoded/lossy/non-ascii-name-utf8: "
+        "parse_qs_bytes reads names as latin-1, documented)",
+    "any other body succeeds or raises HTTPInputError, never another exception": "only_input_error, parse_body_outcomes (entry: result / "
+        "HTTPInputError / model gives up); multipart_inner_exceptions + multipart_inner_unicode_error + part_headers_never_keyerror (what the "
+        "catch-all has to catch: at the parse_multipart_form_data entry the only other exception type is UnicodeDecodeError, and it occurs); "
+        "the exception TYPE at that inner entry is compared with the real code on every multipart/raw case",
     "part-count and part-header-size limits are enforced": "limits_enforced_parts, limits_enforced_parts_reject, limits_enforced_header, "
-        "limits_exact (encoded forms: = accepted, > refused with HTTPInputError, both limits)",
+        "limits_exact, limits_exact_2231 (encoded forms, both parameter styles: = accepted, > refused with HTTPInputError, both limits)",
 }
 PARALLEL = True
 CASE_TIMEOUT = 120   # pure functions: only a runaway mutant gets here; generous because the pool may be starved on a loaded machine
@@ -56,7 +76,10 @@ VALUES = [b"", b"v", b"hello world", b"\x00\xff\xfe", b"line1\r\nline2", b"--", 
           "é".encode(), b"--boundary", b"-", b"\r", b"\n", b"--\r\n"]
 BOUNDARIES = ["zZ9", "1234", "----WebKitFormBoundaryAbC123", "boundary", "b", "a'b", "x=y", "(+_,-./:?)", "B--", "--", "é", "a b", "\"", "q\"q",
               "0" * 70]
+U8_NAMES = ["a", "é", "名前", "😀", "a b", "x&y", "k=v", "ü%41", "\x7f", "\x80", "ÿ", "Ā", "+", "z" * 30]
 _FORBIDDEN = re.compile(r"[\x00-\x08\x0a-\x1f\x7f]")
+# names / filenames only the RFC 2231 form can carry (they travel percent-encoded): control characters, CR LF, DEL, NUL
+R_ONLY = ["a\nb", "\x00", "\r\n", "x\x7f", "\x1f;\"", "tab\there\n", "\x0b\x0c", "\x85\u2028", "'", "utf-8''%41", "\n"]
 
 
 # ----------------------------------------------------------------------------------------------- encoders (generator side)
@@ -88,8 +111,10 @@ def _qb(bs):
     return "".join(chr(b) if (chr(b).isalnum() and b < 128) or chr(b) in "_.-~" else "+" if b == 32 else "%%%02X" % b for b in bs)
 
 
-def encode_urlencoded(fields):
-    return "&".join(_qb(n.encode("latin-1")) + "=" + _qb(bytes.fromhex(v)) for n, v in fields).encode("ascii")
+def encode_urlencoded(fields, enc="l1"):
+    """enc = "l1": names as latin-1 bytes (the only encoding parse_qs_bytes inverts); "u8": names as UTF-8 bytes (what browsers send)"""
+    codec = "utf-8" if enc == "u8" else "latin-1"
+    return "&".join(_qb(n.encode(codec)) + "=" + _qb(bytes.fromhex(v)) for n, v in fields).encode("ascii")
 
 
 # ----------------------------------------------------------------------------------------------- generators
@@ -147,14 +172,32 @@ def _header_sizes(body, b):
     return [p.find(b"\r\n\r\n") for p in ps if p and p.find(b"\r\n\r\n") >= 0]
 
 
+def _prefill(rng):
+    """pre-filled `arguments` / `files` dictionaries for the direct parse_multipart_form_data call (as after query-string parsing);
+    names overlap with the generated ones so that appending to an existing key is exercised"""
+    args = [[rng.choice(NAMES[:8]), [rng.choice(VALUES).hex() for _ in range(rng.randint(1, 2))]] for _ in range(rng.randint(0, 2))]
+    files = [[rng.choice(NAMES[:8]), [[rng.choice(FILENAMES), rng.choice(VALUES).hex(), "text/plain"]]] for _ in range(rng.randint(0, 1))]
+    dedup = lambda l: [kv for i, kv in enumerate(l) if kv[0] not in [x[0] for x in l[:i]]]
+    return {"args": dedup(args), "files": dedup(files)}
+
+
 def _form_case(rng, maxparts=6):
     boundary = rng.choice(BOUNDARIES[:4]) if rng.random() < 0.6 else rng.choice(BOUNDARIES)
     form = "q" if rng.random() < 0.7 else "r"
     parts = _parts(rng, rng.randint(0, maxparts))
+    if form == "r":
+        for p in parts:
+            if rng.random() < 0.2:
+                p[0] = rng.choice(R_ONLY)
+            if p[1] is not None and rng.random() < 0.2:
+                p[1] = rng.choice(R_ONLY)
     body = encode_multipart(form, boundary, parts)
     ct = _ctype_header(rng, boundary)
-    return {"kind": "form", "form": form, "boundary": boundary, "parts": parts, "ct": ct, "ce": rng.random() < 0.03,
+    case = {"kind": "form", "form": form, "boundary": boundary, "parts": parts, "ct": ct, "ce": rng.random() < 0.03,
             "cfg": _cfg(rng, parts, body, boundary)}
+    if rng.random() < 0.15:
+        case["pre"] = _prefill(rng)
+    return case
 
 
 RAW_CT = ["multipart/form-data; boundary=b", "multipart/form-data", "multipart/form-dataxyz; boundary=b", "multipart/form-data; boundary=",
@@ -199,7 +242,14 @@ def gen_cases(rng, tier):
             name = rng.choice(["a", "b", "a b", "é", "x&y", "k=v", "%41", "+", "", "a;b", "\xff"])
             val = rng.choice(VALUES) if rng.random() < 0.7 else bytes(rng.randrange(256) for _ in range(rng.randint(0, 12)))
             fields.append([name, val.hex()])
-        yield {"kind": "urlenc", "fields": fields, "ct": rng.choice(RAW_CT[7:9]), "ce": rng.random() < 0.03}
+        case = {"kind": "urlenc", "fields": fields, "ct": rng.choice(RAW_CT[7:9]), "ce": rng.random() < 0.03}
+        if rng.random() < 0.35:
+            # the standard encoding: names as percent-encoded UTF-8, any text (known finding: non-ASCII names come back as mojibake)
+            case["enc"] = "u8"
+            for f in fields:
+                if rng.random() < 0.5:
+                    f[0] = rng.choice(U8_NAMES)
+        yield case
     for _ in range(n_raw):
         k = rng.random()
         body = rng.choice(RAW_BODY)
@@ -210,8 +260,11 @@ def gen_cases(rng, tier):
                     body = body[:i] + rng.choice([b"", b"\r\n", b"--b", b"\"", b";", b"\\", bytes([rng.randrange(256)])]) + body[i + rng.choice([0, 1]):]
         elif k < 0.6:
             body = bytes(rng.choice(b"-b\r\n:;=\"a \\*'") for _ in range(rng.randint(0, 40)))
-        yield {"kind": "raw", "ct": RAW_CT[0] if rng.random() < 0.5 else rng.choice(RAW_CT), "body": body.hex(), "ce": rng.random() < 0.05,
-               "cfg": {"enabled": rng.random() > 0.03, "max_parts": rng.choice([100, 100, 0, 1, 2]), "max_hdr": rng.choice([10240, 10240, 0, 10, 45])}}
+        case = {"kind": "raw", "ct": RAW_CT[0] if rng.random() < 0.5 else rng.choice(RAW_CT), "body": body.hex(), "ce": rng.random() < 0.05,
+                "cfg": {"enabled": rng.random() > 0.03, "max_parts": rng.choice([100, 100, 0, 1, 2]), "max_hdr": rng.choice([10240, 10240, 0, 10, 45])}}
+        if rng.random() < 0.1:
+            case["pre"] = _prefill(rng)
+        yield case
     # every single-byte mutation of a few small bodies (complete for these bodies)
     for _ in range(n_mut_bodies):
         c = _form_case(rng, maxparts=2)
@@ -235,12 +288,32 @@ def _body_ct(case):
     if case["kind"] == "form":
         return encode_multipart(case["form"], case["boundary"], case["parts"]), case["ct"]
     if case["kind"] == "urlenc":
-        return encode_urlencoded(case["fields"]), case["ct"]
+        return encode_urlencoded(case["fields"], case.get("enc", "l1")), case["ct"]
     return bytes.fromhex(case["body"]), case["ct"]
 
 
 def _cfgof(case):
     return case.get("cfg") or {"enabled": True, "max_parts": 100, "max_hdr": 10240}
+
+
+def _inner_boundary(case):
+    """the boundary handed to parse_multipart_form_data in the direct (inner entry) call: the form's own boundary, or the first
+    non-empty boundary= parameter of the content type (as parse_body_arguments extracts it), else b"b" (the RAW_BODY boundary)"""
+    if case["kind"] == "form":
+        return case["boundary"].encode("utf-8")
+    for field in case["ct"].split(";"):
+        k, _sep, v = field.strip().partition("=")
+        if k == "boundary" and v:
+            try:
+                return v.encode("utf-8")
+            except UnicodeEncodeError:
+                break
+    return b"b"
+
+
+def _result(args, files):
+    return [[[k, [v.hex() for v in vs]] for k, vs in args.items()],
+            [[k, [[f.filename, f.body.hex(), f.content_type] for f in fs]] for k, fs in files.items()]]
 
 
 def run_impl(case):
@@ -253,15 +326,27 @@ def run_impl(case):
     args, files = {}, {}
     try:
         httputil.parse_body_arguments(ct, body, args, files, headers, config=cfg)
-        r = [[[k, [v.hex() for v in vs]] for k, vs in args.items()],
-             [[k, [[f.filename, f.body.hex(), f.content_type] for f in fs]] for k, fs in files.items()]]
+        r = _result(args, files)
     except Exception as e:
         r = _exc(e)
-    return {"r": r, "body": body.hex()}
+    out = {"r": r, "body": body.hex()}
+    if case["kind"] != "urlenc":
+        # the inner entry, outside the catch-all of parse_body_arguments: here the exception TYPE is observable
+        # (HTTPInputError vs UnicodeDecodeError …) and is compared with the model's parseMultipart
+        pre = case.get("pre") or {"args": [], "files": []}
+        args = {n: [bytes.fromhex(v) for v in vs] for n, vs in pre["args"]}
+        files = {n: [httputil.HTTPFile(filename=fn, body=bytes.fromhex(b), content_type=t) for fn, b, t in fs] for n, fs in pre["files"]}
+        try:
+            httputil.parse_multipart_form_data(_inner_boundary(case), body, args, files, config=cfg.multipart)
+            out["mp"] = _result(args, files)
+        except Exception as e:
+            out["mp"] = _exc(e)
+    return out
 
 
 # ----------------------------------------------------------------------------------------------- model / spec
 _SKIP = set()
+_SKIP_MP = set()
 
 
 def _key(case):
@@ -272,6 +357,10 @@ def _wire_parts(case):
     return [[n, fn, ct, bytes.fromhex(v)] for n, fn, ct, v in case["parts"]]
 
 
+def _formenc(case):
+    return "formenc8" if case.get("enc") == "u8" else "formenc"
+
+
 def model_requests(case, impl):
     body, ct = _body_ct(case)
     c = _cfgof(case)
@@ -279,7 +368,12 @@ def model_requests(case, impl):
     if case["kind"] == "form":
         out.append(line(ID, "encode", atom(case["form"]), case["boundary"].encode("utf-8"), _wire_parts(case)))
     if case["kind"] == "urlenc":
-        out.append(line(ID, "formenc", [[n, bytes.fromhex(v)] for n, v in case["fields"]]))
+        out.append(line(ID, _formenc(case), [[n, bytes.fromhex(v)] for n, v in case["fields"]]))
+    else:
+        pre = case.get("pre")
+        extra = [] if pre is None else [[[[n, [bytes.fromhex(v) for v in vs]] for n, vs in pre["args"]],
+                                         [[n, [[fn, bytes.fromhex(b), t] for fn, b, t in fs]] for n, fs in pre["files"]]]]
+        out.append(line(ID, "multipart", c["enabled"], c["max_parts"], c["max_hdr"], _inner_boundary(case), body, *extra))
     return out
 
 
@@ -306,6 +400,10 @@ def model_result(case, replies):
     out = {"r": r}
     if case["kind"] in ("form", "urlenc"):
         out["body"] = _py(replies[1])[0]
+    if case["kind"] != "urlenc":
+        out["mp"] = _py(replies[-1])[0]
+        if out["mp"] == "Unmodelled":
+            _SKIP_MP.add(_key(case))
     return out
 
 
@@ -313,6 +411,8 @@ def impl_view(case, impl):
     out = {"r": "Unmodelled" if _key(case) in _SKIP else impl["r"]}
     if case["kind"] in ("form", "urlenc"):
         out["body"] = impl["body"]
+    if case["kind"] != "urlenc":
+        out["mp"] = "Unmodelled" if _key(case) in _SKIP_MP else impl["mp"]
     return out
 
 
@@ -320,7 +420,7 @@ def spec_requests(case, impl):
     if case["kind"] == "form":
         return [line(ID, "expected", _wire_parts(case))]
     if case["kind"] == "urlenc":
-        return [line(ID, "formenc", [[n, bytes.fromhex(v)] for n, v in case["fields"]])]
+        return [line(ID, _formenc(case), [[n, bytes.fromhex(v)] for n, v in case["fields"]])]
     return []
 
 
@@ -379,7 +479,8 @@ def spec_violation(case, impl, replies):
         want = _py(replies[0])[1]
         want = [[n, vs] for n, vs in want]
         if r != [want, []]:
-            return "urlencoded form not recovered: got %r, expected %r" % (r, want)
+            u8 = case.get("enc") == "u8" and any(not n.isascii() for n, _v in case["fields"])
+            return "urlencoded form not recovered%s: got %r, expected %r" % (" (non-ASCII name sent as UTF-8)" if u8 else "", r, want)
     return None
 
 
@@ -395,12 +496,21 @@ def stats(case, impl):
     out = ["kind:" + case["kind"] + ("/mutant" if case.get("mutant_of") else "")]
     r = impl["r"]
     out.append("result:" + (r if isinstance(r, str) else "ok"))
+    if case["kind"] == "urlenc":
+        out.append("urlenc-names:" + ("latin-1" if case.get("enc") != "u8" else
+                                      "utf-8/ascii-only" if all(n.isascii() for n, _v in case["fields"]) else "utf-8/non-ascii"))
     if case["kind"] == "form":
         out.append("parts:%d" % len(case["parts"]))
         out.append("form:" + case["form"])
         out.append("lossless-clause:" + (_roundtrip_domain(case) or "applies"))
+        if case["form"] == "r" and any(_FORBIDDEN.search(n) or (fn is not None and _FORBIDDEN.search(fn)) for n, fn, _c, _v in case["parts"]):
+            out.append("r-form:control-character-name" + ("/recovered" if isinstance(r, list) else ""))
     if _key(case) in _SKIP:
         out.append("unmodelled")
+    if case.get("pre") is not None:
+        out.append("inner-prefilled" + ("/ok" if isinstance(impl.get("mp"), list) else ""))
+    if "mp" in impl:
+        out.append("inner:" + (impl["mp"] if isinstance(impl["mp"], str) else "ok"))
     return out
 
 
@@ -413,6 +523,8 @@ def signature(case, impl, why):
         return "limits/" + ("parts" if "max_parts" in why else "header")
     if "multipart form not recovered" in why:
         return "multipart/lossy/" + case.get("form", "?")
+    if "non-ASCII name sent as UTF-8" in why:
+        return "urlencoded/lossy/non-ascii-name-utf8"
     if "urlencoded" in why:
         return "urlencoded/lossy"
     return "other"
